@@ -5,6 +5,8 @@ mod c18;
 mod c19;
 mod c20;
 mod gen;
+mod maggen;
+mod magpipe;
 mod pipeline;
 mod tables;
 mod util;
@@ -57,6 +59,7 @@ fn main() {
             let handled = handled || c18::dispatch(&args, seed);
             let handled = handled || c19::dispatch(&args, seed);
             let handled = handled || c20::dispatch(&args, seed);
+            let handled = handled || magpipe::dispatch(&args, seed);
             if !handled {
                 eprintln!("unknown command {}", other);
                 std::process::exit(2);
